@@ -438,3 +438,58 @@ def r8(ctx):
                             'an item is kept only under %s (line %d)' % ([show_in(c, x)[:50] for x in extra], c.span['line']), c.span)
     if n == 0:
         raise AnchorMissing('the per-item extraction closures of tensorize')
+
+
+@rule('C17', 'R-C17-9', 'T10 PROVENANCE (each item is weighted by its own aggregation)',
+      'in token_groups_to_sparse_coo_matrix the aggregation that selects mean weights, and the one handed to TokenGroup::get_weights, is '
+      'component 1 of the grouping of the batch item being written (read inside the loop over `groupings`), not a value fixed once for the '
+      'batch: every Grouping carries its own GroupAggregation, and a mixed batch otherwise gets sum weights on mean items (or the reverse)')
+def r9(ctx):
+    from rules.common import variant_guards
+    from analysis.sym import loop_source
+    b = ctx.body(T + 'token_groups_to_sparse_coo_matrix')
+    gw = [t for t in b.calls(r'TokenGroup::get_weights$')]
+    if not gw:
+        raise AnchorMissing('TokenGroup::get_weights call in token_groups_to_sparse_coo_matrix')
+    outer = [t for t in b.calls(r'::next$') if has(core(loop_source(b, t)), ('arg', 1, ANY)) and not has(core(loop_source(b, t)), Call('::next', ANY))]
+    if len(outer) != 1:
+        raise AnchorMissing('the loop over `groupings` (found %d)' % len(outer))
+    item = nosite(sym(b, outer[0].dest))
+    from_item = lambda tree: any(isinstance(x, tuple) and x and nosite(x) == item for x in walk(nosite(tree)))
+    for t in gw:
+        a = sym(b, t.args[1])
+        ca = core(a)
+        lit = ca[2].rsplit('::', 1)[-1] if ca[0] == 'agg' and ca[1] == 'adt' and not ca[3] else None
+        # a literal variant is fine when the branch it sits in was selected by the item's aggregation being that variant
+        lit_ok = lit is not None and any(from_item(x) and cfg.edge_dominates(b, (g.block, g.target), t.bb) for g, x in variant_guards(b, lit))
+        ctx.require(from_item(a) or lit_ok, b, 'weights-own-aggregation', 'get_weights (line %d) receives the aggregation of the current batch item' % t.span['line'],
+                    'get_weights at line %d receives `%s`, which is not read from the grouping of the batch item being written: in a batch that mixes mean and sum '
+                    'groupings the weights of some items follow another item\'s setting' % (t.span['line'], show_in(b, a)[:80]), t.span)
+        gs = [x for g, x in variant_guards(b, 'Mean') if cfg.edge_dominates(b, (g.block, g.target), t.bb)]
+        ctx.require(any(from_item(x) for x in gs), b, 'mean-test-own-aggregation', 'the mean branch (line %d) is selected by the aggregation of the current batch item' % t.span['line'],
+                    'the mean-weights branch at line %d is selected by `%s`, not by the aggregation of the batch item being written' % (
+                        t.span['line'], [show_in(b, x)[:60] for x in gs] or [show_in(b, tt)[:60] for tt, pol, g in atoms_at(b, t.bb)][-1:]), t.span)
+
+
+@rule('C17', 'R-C17-10', 'T14 EFFECT (padded matrices are handed on as built)',
+      'in Batch<TrainItem>::tensorize nothing writes into a matrix returned by pad_ids: each row is the item\'s values followed by padding '
+      'only. A pass that rewrites entries by VALUE (labels equal to the pad id -> -1) also hits genuine labels, because generation labels are '
+      'token ids and the pad token can occur in the text')
+def r10(ctx):
+    cands = [b for b in ctx.facts.bodies if b.path.endswith('::tensorize') and b.kind != 'Closure' and b.impl_self and 'TrainItem' in b.impl_self and b.file() == 'src/data/mod.rs']
+    if len(cands) != 1:
+        raise AnchorMissing('Batch<TrainItem>::tensorize (found %d)' % len(cands))
+    b = cands[0]
+    pads = [t for t in b.calls(r'data::pad_ids$')]
+    if len(pads) < 2:
+        raise AnchorMissing('pad_ids calls in tensorize (found %d)' % len(pads))
+    n = 0
+    for t in b.terms('call'):
+        if not t.args or t.args[0].place is None or not b.local_ty(t.args[0].place.local).startswith('&mut'):
+            continue
+        r = init_value(b, sym(b, t.args[0]))
+        if has(r, Call('data::pad_ids', ANY, ANY)) or has(sym(b, t.args[0]), Call('data::pad_ids', ANY, ANY)):
+            n += 1
+            ctx.fail(b, 'padded-rewritten|' + (t.callee_res() or '').rsplit('::', 1)[-1], 'tensorize modifies a matrix returned by pad_ids with `%s` (line %d): entries inside an '
+                     'item\'s own part of the row can change, so the matrix no longer holds each item\'s values followed by padding' % ((t.callee_res() or '').rsplit('::', 1)[-1], t.span['line']), t.span)
+    ctx.ok(b, '%d pad_ids results of tensorize are handed on unmodified' % len(pads))
